@@ -667,13 +667,16 @@ class Ctx:
         self.prev_nat = None   # name of the immediately preceding `#` field (implicit scale)
 
 
-def mentions_var(e, name):
+def mentions_var(e, name, own=None):
+    """does the type expression use Type variable `name` other than by handing it back to the definition `own` itself"""
     if isinstance(e, TVar):
         return e.name == name
     if isinstance(e, TRef):
-        return any(mentions_var(a, name) for a in e.args if not isinstance(a, NatE))
+        if e.tdef is own:
+            return False
+        return any(mentions_var(a, name, own) for a in e.args if not isinstance(a, NatE))
     if isinstance(e, (TRep, TVec)):
-        return mentions_var(e.elem, name)
+        return mentions_var(e.elem, name, own)
     return False
 
 
@@ -1047,13 +1050,18 @@ class SchemaGen:
             self.hit("struct:typedef")
             for _ in range(30):
                 ty = self.gen_type(ctx, 0)
-                if not tparams or mentions_var(ty, tparams[0]):
+                if not tparams or mentions_var(ty, tparams[0], td):
                     break
             else:
                 ty = TVar(tparams[0])
             c.fields = [FieldD("", ty)]
         else:
-            c.fields = self.gen_fields(ctx, r.choice([0, 1, 2, 2, 3, 3, 4, 5, 6, 8]))
+            if r.chance(1, 8):
+                # wide constructor: more than one TL2 presence-mask block (a block covers 8 field slots, slot 0 of the first is the variant bit)
+                c.fields = self.gen_fields(ctx, r.range(9, 20))
+                self.hit("struct:wide")
+            else:
+                c.fields = self.gen_fields(ctx, r.choice([0, 1, 2, 2, 3, 3, 4, 5, 6, 8]))
             self.hit("struct:plain" + ("-templ" if td.params else ""))
         self.fix_unused_params(td, [c], ctx)
         self.set_tag(c)
@@ -1283,6 +1291,61 @@ class SchemaGen:
         self.finish(td)
         self.hit("cover:recursion")
 
+    def wide_fields(self, ctx, n, mask=None, local_mask=True):
+        """n fields for a wide constructor: cheap types, `m.K?true` bits and optional fields also late in the body.
+        `mask`: a nat expression usable as mask from the start (a parameter); a local `#` mask field is added early when asked."""
+        r = self.rng
+        fields = []
+        masks = [mask] if mask is not None else []
+        at = r.below(min(5, n)) if local_mask else -1
+        for i in range(n):
+            if i == at:
+                m = self.field_name(ctx)
+                fields.append(FieldD(m, TPrim("nat")))
+                masks.append(NatE("field", m))
+                continue
+            late = i >= 7
+            k = r.below(10)
+            if masks and (k < 3 or (late and k < 5)):
+                fields.append(FieldD(self.field_name(ctx), self.spell_ref(self.P["True"], True, []), (r.choice(masks), r.choice(BITS))))
+            elif masks and k < 6:
+                fields.append(FieldD(self.field_name(ctx), r.choice([TPrim("int"), TPrim("string"), TPrim("long"), TPrim("double"),
+                                                                    self.spell_ref(self.P["Vector"], True, [TPrim("int")])]),
+                                     (r.choice(masks), r.choice(BITS))))
+            else:
+                fields.append(FieldD(self.field_name(ctx), r.choice([TPrim("int"), TPrim("int"), TPrim("string"), TPrim("long"), TPrim("float"),
+                                                                    TRef(self.P["Bool"], False, [], use_cname=False),
+                                                                    self.spell_ref(self.P["Vector"], True, [TPrim(r.choice(["int", "string"]))])])))
+        return fields
+
+    def cover_wide(self):
+        """constructors with 9–20 fields (two or three TL2 presence-mask blocks): plain, with local and external masks, as union variants"""
+        r = self.rng
+        w1, c1, x1 = self.new_simple()
+        c1.fields = self.wide_fields(x1, r.range(9, 20))
+        self.finish(w1)
+        # external mask: `{n:#} … flag:n.K?true …`, used with a field and with a constant
+        w2, c2, x2 = self.new_simple([("n", "nat", "mask")])
+        c2.fields = self.wide_fields(x2, r.range(9, 14), mask=NatE("param", "n"), local_mask=r.chance(1, 2))
+        self.finish(w2)
+        # wide union variants (a non-first variant needs 8 slots for a second block)
+        ns, tn, base = self.fresh_type_names(union=True)
+        u = TypeDef(ns, tn, [], "union")
+        for suf in ("A", "B", "C")[:r.range(2, 3)]:
+            self.used_names.add((ns + "." if ns else "") + base + suf)
+            c = Comb(u, ns, base + suf)
+            c.fields = self.wide_fields(Ctx(u), r.choice([0, 2, 8, 9, 12, 17]) if suf == "A" else r.range(8, 16))
+        self.finish(u)
+        h, ch, xh = self.new_simple()
+        m = self.field_name(xh)
+        ch.fields = [FieldD(m, TPrim("nat")), FieldD(self.field_name(xh), self.spell_ref(w1, r.chance(3, 4), [])),
+                     FieldD(self.field_name(xh), self.spell_ref(w2, r.chance(3, 4), [NatE("field", m)])),
+                     FieldD(self.field_name(xh), self.spell_ref(self.P["Vector"], True, [self.spell_ref(w2, True, [self.const("mask")])])),
+                     FieldD(self.field_name(xh), self.spell_ref(u, False, [])),
+                     FieldD(self.field_name(xh), self.spell_ref(self.P["Vector"], True, [self.spell_ref(u, False, [])]))]
+        self.finish(h)
+        self.hit("cover:wide")
+
     def run(self):
         r = self.rng
         n = 0
@@ -1300,6 +1363,7 @@ class SchemaGen:
             self.cover_natpass()
             self.cover_union_nat()
             self.cover_recursion()
+            self.cover_wide()
         # make sure every template is instantiated somewhere
         for t in list(self.user):
             if t.params and not self.is_referenced(t):
@@ -1326,10 +1390,12 @@ class SchemaGen:
         return False
 
 
-def gen_schema_ex(rng, size, features=None):
+def gen_schema_ex(rng, size, features=None, has_tl2=False):
+    """`has_tl2`: descriptor of the schema as generated with --tl2WhiteList=* (every instance has TL2 code, masked fields carry
+    their position in the hidden TL2 presence mask)"""
     g = SchemaGen(rng, size, features)
     types = g.run()
-    return schema_text(types), descriptor(types), g
+    return schema_text(types), descriptor(types, has_tl2), g
 
 
 def gen_schema(rng, size):
